@@ -33,7 +33,8 @@ TRUSTED = [
     "rdata._escapify/_wordbreak/_hexify/_base64ify/_truncate_bitmap, GenericRdata text form, TXT-like text form), "
     "coq/Model/RdTextM.v (schema-driven to_text/from_text of the regular record types)",
     "binascii.hexlify/unhexlify/a2b_base64/b2a_base64 and int()/str.isdecimal() are C code outside /repo: modelled in "
-    "Gallina for ASCII input and compared with CPython on every run (ops 8, 22, 23)",
+    "Gallina for ASCII input and compared with CPython on every run (ops 8, 22, 23); time.gmtime/strftime and "
+    "calendar.timegm (RRSIG times) likewise for 32-bit times (ops 60, 61)",
     "record-level oracle (harness/c05lib.py): dns.rdata.from_wire/from_text/to_text/to_wire/to_generic of /repo on "
     "specimen, mutated and random values of every implemented type",
 ]
@@ -296,6 +297,7 @@ SCHEMA = {
     24: ("etype ealgnum i8 ttl sigtime sigtime i16 n b64",
          ["type_covered", "algorithm", "labels", "original_ttl", "expiration", "inception", "key_tag", "signer", "signature"]),
     108: ("eui6", ["eui"]), 109: ("eui8", ["eui"]),
+    104: ("d16 fmthex", ["preference", "nodeid"]), 106: ("d16 fmthex", ["preference", "locator64"]),
     43: ("d16 alg d8 hex", ["key_tag", "algorithm", "digest_type", "digest"]),
     59: ("d16 alg d8 hex", ["key_tag", "algorithm", "digest_type", "digest"]),
     32769: ("d16 alg d8 hex", ["key_tag", "algorithm", "digest_type", "digest"]),
@@ -333,6 +335,9 @@ def gen_field(rng, kind):
         return rng.choice([0, 1, 2, 23, 46, 47, 48, 59, 60, 62, 255, 256, 257, 262, 263, 32768, 32769, 65535, rng.randrange(65536)])
     if kind == "ectype":
         return rng.choice([0, 1, 2, 3, 4, 5, 6, 7, 8, 9, 252, 253, 254, 255, 65535, rng.randrange(65536)])
+    if kind == "fmthex":
+        t = ":".join("%04x" % rng.choice([0, 1, 0x14, 0xDB8, 0xABCD, 0xFFFF, rng.randrange(65536)]) for _ in range(4))
+        return (t.upper() if rng.random() < 0.3 else t).encode()
     if kind in ("eui6", "eui8"):
         return bytes(rng.choice([0, 1, 9, 10, 15, 16, 0xAB, 0xF0, 255, rng.randrange(256)]) for _ in range(int(kind[3])))
     if kind == "sigtime":
@@ -397,7 +402,8 @@ def mkname(ls):
 
 def build_rdata(rdtype, vals):
     kinds = SCHEMA[rdtype][0].split()
-    args = [mkname(v) if k == "n" else [(w, bytes(b)) for w, b in v] if k == "bm" else v for k, v in zip(kinds, vals)]
+    args = [mkname(v) if k == "n" else [(w, bytes(b)) for w, b in v] if k == "bm" else bytes(v).decode("latin-1") if k == "fmthex" else v
+            for k, v in zip(kinds, vals)]
     cls = dns.rdata.get_rdata_class(dns.rdataclass.IN, rdtype)
     return cls(dns.rdataclass.IN, rdtype, *args)
 
@@ -791,6 +797,9 @@ def impl(case):
                 v = getattr(rd, a)
                 if k == "bm":
                     out.append([[int(w), bytes(b)] for w, b in v])
+                    continue
+                if k == "fmthex":
+                    out.append(enc(v))
                     continue
                 if k == "a4":
                     v = dns.ipv4.inet_aton(v)
